@@ -31,6 +31,8 @@ import (
 	"go.opentelemetry.io/collector/pdata/pmetric"
 	"go.opentelemetry.io/collector/pdata/ptrace"
 	"go.opentelemetry.io/collector/processor/processortest"
+	sdkmetric "go.opentelemetry.io/otel/sdk/metric"
+	"go.opentelemetry.io/otel/sdk/metric/metricdata"
 	sdktrace "go.opentelemetry.io/otel/sdk/trace"
 	"go.opentelemetry.io/otel/sdk/trace/tracetest"
 	"go.opentelemetry.io/otel/trace"
@@ -698,6 +700,9 @@ func runScenario(t *testing.T, sc *Scenario, tr int, out *bufio.Writer) {
 	tp := sdktrace.NewTracerProvider(sdktrace.WithSpanProcessor(rec))
 	set := processortest.NewNopSettings(component.MustNewType("concurrentbatch"))
 	set.TelemetrySettings.TracerProvider = tp
+	// the processor's own instruments are read once, at the end of the scenario (BPTelemetry.tla)
+	mreader := sdkmetric.NewManualReader()
+	set.TelemetrySettings.MeterProvider = sdkmetric.NewMeterProvider(sdkmetric.WithReader(mreader))
 	snk := &sink{r: r}
 	var proc interface {
 		Start(context.Context, component.Host) error
@@ -941,13 +946,18 @@ func runScenario(t *testing.T, sc *Scenario, tr int, out *bufio.Writer) {
 				}
 			}
 			sort.Slice(due, func(a, b int) bool { return due[a].at < due[b].at || (due[a].at == due[b].at && due[a].x < due[b].x) })
-			for _, q := range due {
+			for i := 0; i < len(due); {
+				q := due[i]
 				if wait := q.at - 1 - r.now(); wait > 0 {
 					time.Sleep(time.Duration(wait) * time.Millisecond)
 					synctest.Wait()
 				}
-				expired[q.x] = true
-				r.log("Cancel", map[string]any{"x": q.x, "k": "deadline", "t": q.at})
+				// every deadline of this instant is recorded before the instant is reached: contexts that expire
+				// together take effect together, and no reaction may precede the record of its cause
+				for ; i < len(due) && due[i].at == q.at; i++ {
+					expired[due[i].x] = true
+					r.log("Cancel", map[string]any{"x": due[i].x, "k": "deadline", "t": due[i].at})
+				}
 				if wait := q.at - r.now(); wait > 0 {
 					time.Sleep(time.Duration(wait) * time.Millisecond)
 					synctest.Wait()
@@ -1187,6 +1197,7 @@ func runScenario(t *testing.T, sc *Scenario, tr int, out *bufio.Writer) {
 	synctest.Wait()
 	select {
 	case <-done:
+		r.log("Telemetry", readTelemetry(mreader))
 		r.log("End", map[string]any{"k": "ok"})
 	default:
 		r.log("End", map[string]any{"k": "leak"})
@@ -1247,4 +1258,45 @@ func TestScenarios(t *testing.T) {
 		timer.Stop()
 		out.Flush()
 	}
+}
+
+// readTelemetry collects the processor's instruments: a = size-trigger sends, b = timeout-trigger sends, d = number
+// of batch_send_size records, g = their sum, h = metadata cardinality (-1: an instrument was never reported).
+func readTelemetry(rd *sdkmetric.ManualReader) map[string]any {
+	out := map[string]any{"a": 0, "b": 0, "d": 0, "g": 0, "h": -1, "k": "ok"}
+	var rm metricdata.ResourceMetrics
+	if err := rd.Collect(context.Background(), &rm); err != nil {
+		out["k"] = "collect-error"
+		return out
+	}
+	for _, sm := range rm.ScopeMetrics {
+		for _, m := range sm.Metrics {
+			switch d := m.Data.(type) {
+			case metricdata.Sum[int64]:
+				var v int64
+				for _, dp := range d.DataPoints {
+					v += dp.Value
+				}
+				switch {
+				case strings.HasSuffix(m.Name, "batch_size_trigger_send"):
+					out["a"] = int(v)
+				case strings.HasSuffix(m.Name, "timeout_trigger_send"):
+					out["b"] = int(v)
+				case strings.HasSuffix(m.Name, "metadata_cardinality"):
+					out["h"] = int(v)
+				}
+			case metricdata.Histogram[int64]:
+				if strings.HasSuffix(m.Name, "batch_send_size") {
+					var c uint64
+					var sum int64
+					for _, dp := range d.DataPoints {
+						c += dp.Count
+						sum += dp.Sum
+					}
+					out["d"], out["g"] = int(c), int(sum)
+				}
+			}
+		}
+	}
+	return out
 }
